@@ -266,6 +266,15 @@ class Inliner:
                     and "classmethod" not in new_c[0].decorators():
                 return new_c[0], True, f.value
         if isinstance(f, ast.Name):
+            # a name the enclosing function(s) also bind by assignment / loop / import / a second def is not *the* helper: which object it
+            # denotes at the call depends on the path (e.g. `f = g` in one branch and `def f(..)` in the other)
+            sc = owner
+            while sc is not None:
+                n_def = sum(1 for x in _walk_local(sc.node) if isinstance(x, (ast.FunctionDef, ast.AsyncFunctionDef)) and x.name == f.id)
+                n_other = sum(1 for x in _walk_local(sc.node) if isinstance(x, ast.Name) and x.id == f.id and isinstance(x.ctx, (ast.Store, ast.Del)))
+                if n_other or n_def > 1 or f.id in sc.params:
+                    return None
+                sc = sc.parent
             # nested helper of the owner, then a function of the same module
             cands = [x for x in repo.funcs.get(f"{owner.qual}.{f.id}", [])]
             if not cands and owner.parent is not None:
